@@ -420,3 +420,58 @@ check("C09", "iteration.elements", gen_iter, functions=("numpoly.ndpoly.__iter__
       note=BOUNDS + ITER + "every shape of 1-3 dimensions")(iteration)
 check("C09", "iteration.size0", lambda tier, rng: gen_iter(tier, rng, True), functions=("numpoly.ndpoly.__iter__", "numpoly.ndpoly.flat"),
       note=BOUNDS + ITER + "ONLY the 7 shapes with an extent 0")(iteration)
+
+
+# ------------------------------------------------------------------ where with non-finite coefficients
+def gen_where_nonfinite(tier, rng):
+    specials = [float("inf"), float("-inf"), float("nan"), 1e308, -1e308]
+    for _ in range(count(tier, 60, 600)):
+        shape = rng.choice([(2,), (3,), (2, 2), (1, 3)])
+        n = 1
+        for e in shape:
+            n *= e
+        terms = rng.sample([(0, 0), (1, 0), (0, 1), (2, 1), (1, 1)], rng.choice([1, 2, 3]))
+        c1 = [[rng.choice(specials) if rng.random() < 0.4 else float(rng.choice([-2, 1, 3])) for _ in range(n)] for _ in terms]
+        other = rng.choice(["zero", "number", "poly"])
+        c2 = [[float(rng.choice([0, 0, 5, -1])) for _ in range(n)] for _ in terms] if other == "poly" else None
+        yield {"shape": list(shape), "terms": [list(t) for t in terms], "c1": c1, "other": other, "c2": c2,
+               "cond": [rng.random() < 0.5 for _ in range(n)], "via": rng.choice(NP2)}
+
+
+@check("C09", "where.nonfinite_coefficients", gen_where_nonfinite, functions=("numpoly.where",),
+       note="bounded: float64 polynomial arrays of <=3 terms in q0, q1 whose coefficients include inf, -inf, nan and +-1e308 at random "
+            "positions, against 0, a number or a second polynomial; every element of the result is the selected operand's element, "
+            "coefficient by coefficient (nan equals nan): a value at a position that is NOT selected never leaks into the result")
+def where_nonfinite(inp):
+    import numpoly
+    shape = tuple(inp["shape"])
+    E = numpy.array(inp["terms"], dtype=int)
+    mk = lambda cs: numpoly.polynomial_from_attributes(E, [numpy.array(c, dtype=float).reshape(shape) for c in cs], ("q0", "q1"),
+                                                       retain_coefficients=True, retain_names=True)
+    p1 = mk(inp["c1"])
+    p2 = 0 if inp["other"] == "zero" else 2.5 if inp["other"] == "number" else mk(inp["c2"])
+    cond = numpy.array(inp["cond"], dtype=bool).reshape(shape)
+    table = lambda p: ({tuple(int(x) for x in e): numpy.asarray(c, dtype=float) for e, c in zip(p.exponents, p.coefficients)}
+                       if isinstance(p, numpoly.ndpoly) else {(0, 0): numpy.full(shape, float(p))})
+    t1, t2 = table(p1), table(p2)
+    mod = numpoly if inp["via"] == "numpoly" else numpy
+    with numpy.errstate(all="ignore"):
+        try:
+            r = mod.where(cond, p1, p2)
+        except Exception as e:      # noqa: BLE001
+            return f"where raised {type(e).__name__}: {e}"
+    if not isinstance(r, numpoly.ndpoly) or r.shape != shape:
+        return f"where returned {type(r).__name__} of shape {getattr(r, 'shape', None)}; expected a polynomial array of shape {shape}"
+    names = tuple(r.names)
+    got = {}
+    for e, c in zip(r.exponents, r.coefficients):
+        key = tuple(int(dict(zip(names, e)).get(n, 0)) for n in ("q0", "q1"))
+        got[key] = numpy.asarray(c, dtype=float)
+    zero = numpy.zeros(shape)
+    for key in sorted(set(t1) | set(t2) | set(got)):
+        want = numpy.where(cond, t1.get(key, zero), t2.get(key, zero))
+        have = got.get(key, zero)
+        if not numpy.array_equal(want, have, equal_nan=True):
+            return (f"coefficient of q0**{key[0]}*q1**{key[1]}: {have.tolist()} instead of {want.tolist()} (condition {cond.tolist()}, "
+                    f"first operand {t1.get(key, zero).tolist()}, second {t2.get(key, zero).tolist()})")
+    return None
